@@ -11,7 +11,7 @@ theorem ensureTmp_inv12 {s : State} (h : Inv12 s) (hj : s.needsToJoin = false) :
   unfold ensureTmp
   split
   · rename_i hsp
-    refine ⟨h.str.congr rfl rfl rfl rfl, rfl, h.opened, h.snapEq, h.failNone, h.regOid, h.regStatus,
+    refine ⟨h.str.congr rfl rfl rfl rfl, rfl, h.opened, h.snapEq, h.regOid, h.regStatus,
       h.addedReg, h.changedReg, ?_, h.serial0, h.addedSerial, h.commFresh, h.addedUncommitted, h.tidB,
       ?_, ?_, ?_, ?_, ?_, h.spsOrder, h.spsFlag⟩
     · intro hn
@@ -30,12 +30,14 @@ theorem ensureTmp_inv12 {s : State} (h : Inv12 s) (hj : s.needsToJoin = false) :
     · intro t ht
       cases ht
       exact ⟨rfl, fun k p hp => by simp at hp, fun k hk => by simp at hk,
-        fun k hk => by simp [Map.has] at hk, fun k p r hp => by simp at hp⟩
+        fun k hk => by simp [Map.has] at hk, fun k p r hp => by simp at hp,
+        fun k i hk => by simp [Map.has] at hk⟩
     · intro t _ p idx cr hm
       exact absurd hm (h.spsNone hsp p idx cr)
     · intro hn; cases hn
   · obtain ⟨f1, f2⟩ := h.frame (s' := { s with creating := [] }) rfl rfl rfl
-    exact ⟨h.str.congr rfl rfl rfl rfl, rfl, h.opened, h.snapEq, h.failNone, h.regOid, h.regStatus,
+      (fun t ht k i hk hi => (h.tmp t ht).crSerial k i hk hi)
+    exact ⟨h.str.congr rfl rfl rfl rfl, rfl, h.opened, h.snapEq, h.regOid, h.regStatus,
       h.addedReg, h.changedReg, h.idle, h.serial0, h.addedSerial, h.commFresh, h.addedUncommitted, h.tidB,
       h.coh, f1, f2, h.spsReal, h.spsNone, h.spsOrder, h.spsFlag⟩
 
@@ -153,7 +155,9 @@ theorem savepoint_loop {e : State} (h : Inv12 e) {t0 : TmpStore} (hsp0 : e.sp = 
     ((connCommitPlain bound e).2 = none →
       Prog e [] (connCommitPlain bound e).1 ∧ TmpJ t0 e (connCommitPlain bound e).1 ∧
       (connCommitPlain bound e).1.added = [] ∧
-      (∀ j, ((connCommitPlain bound e).1.objs j).status ≠ .changed)) ∧
+      (∀ j, ((connCommitPlain bound e).1.objs j).status ≠ .changed) ∧
+      (∀ i ∈ e.registered, ∀ k, (e.objs i).oid = some k →
+        (e.added.get k = some i ∨ (e.objs i).status = .changed) → marked (connCommitPlain bound e).1 k)) ∧
     ((connCommitPlain bound e).2 ≠ none →
       Prog e [] (connCommitPlain bound e).1 ∧ TmpFail t0 e (connCommitPlain bound e).1) := by
   unfold connCommitPlain
@@ -162,7 +166,7 @@ theorem savepoint_loop {e : State} (h : Inv12 e) {t0 : TmpStore} (hsp0 : e.sp = 
     (TmpJ.refl hsp0 (h.tmp t0 hsp0).pos) h.regOid
   refine ⟨fun hr => ?_, g2⟩
   obtain ⟨hP, hJ, _, _, g4⟩ := g1 hr
-  refine ⟨hP, hJ, ?_, ?_⟩
+  refine ⟨hP, hJ, ?_, ?_, fun i hi k hk hc => (g4 i hi k hk).2.2 hc⟩
   · apply Map.eq_nil_of_get_none
     intro k
     cases ha : (commitLoop (bound + 1) e e.registered).1.added.get k with
@@ -181,10 +185,6 @@ theorem savepoint_loop {e : State} (h : Inv12 e) {t0 : TmpStore} (hsp0 : e.sp = 
     subst this
     exact hs hch
 
-theorem TmpStore.loadAt_of {t : TmpStore} {k p : Nat} {r : Rec} (h : t.entries[p]? = some (k, r)) :
-    t.loadAt k p = some r := by
-  unfold TmpStore.loadAt; rw [h]; simp
-
 /-- `mergeCreating` when there is a temporary store -/
 def merged (r : State) (t : TmpStore) : State :=
   { r with sp := some { t with creating := t.creating.update r.creating }, creating := [], registered := [] }
@@ -195,7 +195,7 @@ theorem savepoint_merge {e : State} (h : Inv12 e) {t0 : TmpStore} (hsp0 : e.sp =
     (hadd : r.added = []) (hnc : ∀ j, (r.objs j).status ≠ .changed) :
     Inv12 (mergeCreating r) ∧ (mergeCreating r).registered = [] ∧ (mergeCreating r).added = [] ∧
     (mergeCreating r).sps = e.sps ∧ (mergeCreating r).needsToJoin = false ∧
-    ∃ t', (mergeCreating r).sp = some t' ∧ EntryWF t' t'.position t'.index t'.creating := by
+    ∃ t', (mergeCreating r).sp = some t' ∧ EntryWF e.committed t' t'.position t'.index t'.creating := by
   obtain ⟨t, hsp, hR⟩ := hJ
   have w0 := h.tmp t0 hsp0
   have hS := hP.str
@@ -311,10 +311,10 @@ theorem savepoint_merge {e : State} (h : Inv12 e) {t0 : TmpStore} (hsp0 : e.sp =
       (t0.creating.has k = true ∨ r.creating.has k = true) := by
     intro k
     rw [Map.has_iff, Map.get_update, hR.cr, ← Map.has_iff, ← Map.has_iff]
-  refine ⟨?_, rfl, hadd, cx8, by show r.needsToJoin = false; rw [cx6]; exact hj, _, rfl, ?_⟩
-  · refine ⟨hS.congr rfl rfl rfl rfl, rfl, by show r.opened = true; rw [cx5]; exact h.opened,
+  have hinv : Inv12 (merged r t) := by
+    refine ⟨hS.congr rfl rfl rfl rfl, rfl, by show r.opened = true; rw [cx5]; exact h.opened,
       by show r.snap = r.committed; rw [cx1, cx2]; exact h.snapEq,
-      by show r.fail = .none; rw [cx10]; exact h.failNone, ?_, ?_, ?_, ?_, ?_, ?_, ?_, ?_, ?_, ?_, ?_, ?_,
+      ?_, ?_, ?_, ?_, ?_, ?_, ?_, ?_, ?_, ?_, ?_, ?_,
       ?_, ?_, ?_, by show r.sps.Pairwise entryLe; rw [cx8]; exact h.spsOrder, ?_⟩
     · intro i hi; cases hi
     · intro i hi; cases hi
@@ -416,7 +416,37 @@ theorem savepoint_merge {e : State} (h : Inv12 e) {t0 : TmpStore} (hsp0 : e.sp =
       intro t' ht'
       have : some { t with creating := t.creating.update r.creating } = some t' := ht'
       cases this
-      refine ⟨hR.pos, ?_, ?_, ?_, ?_⟩
+      refine ⟨hR.pos, ?_, ?_, ?_, ?_, ?_⟩
+      rotate_right
+      · -- crSerial
+        intro k i hk hi
+        have hk' : (t.creating.update r.creating).has k = true := hk
+        have hi' : r.cache.get k = some i := hi
+        show (r.objs i).serial = 0
+        have hfromE : ∀ i', e.cache.get k = some i' → (e.objs i').serial = 0 → (r.objs i).serial = 0 := by
+          intro i' hi0 hs0
+          have := hP.cacheGrow k i' hi0
+          rw [hi'] at this; cases this
+          by_cases hg : (e.objs i).status = .ghost
+          · rw [hP.ghostSerial i hg]; exact hs0
+          · rw [(hP.objVal i hg).2.2]; exact hs0
+        rcases (hupd k).1 hk' with h1 | h1
+        · obtain ⟨j0, hj0⟩ := w0.idxCached k (w0.crIdx k h1).1
+          exact hfromE j0 hj0 (w0.crSerial k j0 h1 hj0)
+        · have hoi := hS.cacheS k i hi'
+          rcases hP.creatingNew k h1 with h7 | h7 | ⟨i', h7⟩ | ⟨i', h7, h8, _⟩
+          · rw [h.creatingNil] at h7; cases h7
+          · have h0o : (e.objs i).oid = none := by
+              cases hh : (e.objs i).oid with
+              | none => rfl
+              | some k0 =>
+                have := hP.oidKeep i k0 hh; rw [hoi] at this; cases this
+                have := h.str.fresh i k hh; omega
+            rw [hP.serialKept i (Or.inl h0o)]; exact h.serial0 i h0o
+          · have : i' = i := hS.inj i' i k (hP.oidKeep i' k (h.str.addedS k i' h7).1) hoi
+            subst this
+            rw [hP.serialKept i' (Or.inr ⟨k, h7⟩)]; exact h.addedSerial k i' h7
+          · exact hfromE i' h7 h8
       · intro k p hp
         rcases hidx k p hp with ⟨h1, h2, h3⟩ | ⟨_, h2, i, _, h4, _⟩
         · refine ⟨by have := hR.le; show p < t.position; omega, ?_⟩
@@ -500,17 +530,33 @@ theorem savepoint_merge {e : State} (h : Inv12 e) {t0 : TmpStore} (hsp0 : e.sp =
       cases this
       have hm' : SpEntry.real p idx cr ∈ e.sps := by rw [← cx8]; exact hm
       have we := h.spsReal t0 hsp0 p idx cr hm'
-      refine ⟨by show p ≤ t.position; have := we.le; have := hR.le; omega, ?_, ?_, ?_, we.crIdx⟩
+      refine ⟨by show p ≤ t.position; have := we.le; have := hR.le; omega, ?_, ?_, ?_, we.crIdx, ?_, ?_⟩
       · intro k q hq
         obtain ⟨h1, rr, hrr⟩ := we.idxLt k q hq
         exact ⟨h1, rr, by show t.entries[q]? = _; rw [hR.pre q (by have := we.le; omega)]; exact hrr⟩
       · intro k hk; exact hR.idxKeep k (we.idxSub k hk)
       · intro k hk; exact (hupd k).2 (Or.inl (we.crSub k hk))
+      · intro k hk hc
+        have hc' : (t.creating.update r.creating).has k = true := hc
+        rcases (hupd k).1 hc' with h1 | h1
+        · exact we.idxOwned k hk h1
+        · obtain ⟨j, hj⟩ := w0.idxCached k (we.idxSub k hk)
+          rcases h.owned k j hj with h2 | ⟨t1, ht1, h2⟩
+          · exact absurd (hcomm k h1) h2
+          · rw [hsp0] at ht1; cases ht1
+            exact we.idxOwned k hk h2
+      · intro k q rr hq he
+        have he' : t.entries[q]? = some (k, rr) := he
+        rw [hR.pre q (by have := (we.idxLt k q hq).1; have := we.le; omega)] at he'
+        show (∀ c, r.committed.get k = some c → rr.serial = c.serial) ∧ (r.committed.get k = none → rr.serial = 0)
+        rw [cx2]
+        exact we.recSerial k q rr hq he'
     · intro hn; cases hn
     · intro hn hm
       have : r.needsToJoin = false := hn
       have hm' : SpEntry.abortSp false ∈ e.sps := by rw [← cx8]; exact hm
       exact h.spsFlag hj hm'
+  refine ⟨hinv, rfl, hadd, cx8, by show r.needsToJoin = false; rw [cx6]; exact hj, _, rfl, ?_⟩
   · -- the new savepoint state is well formed
     have hidx' : ∀ k p, t.index.get k = some p → p < t.position ∧ ∃ rr, t.entries[p]? = some (k, rr) := by
       intro k p hp
@@ -519,13 +565,18 @@ theorem savepoint_merge {e : State} (h : Inv12 e) {t0 : TmpStore} (hsp0 : e.sp =
         obtain ⟨_, rr, hrr⟩ := w0.idx k p h1
         exact ⟨rr, by rw [h3]; exact hrr⟩
       · exact ⟨h2, _, h4⟩
-    refine ⟨Nat.le_refl _, hidx', fun _ hk => hk, fun _ hk => hk, ?_⟩
-    intro k hk
-    have hk' : (t.creating.update r.creating).has k = true := hk
-    show t.index.get k ≠ none
-    rcases (hupd k).1 hk' with h1 | h1
-    · exact hR.idxKeep k (w0.crIdx k h1).1
-    · obtain ⟨p, hp, _⟩ := hcrNew k h1
-      rw [hp]; simp
+    refine ⟨Nat.le_refl _, hidx', fun _ hk => hk, fun _ hk => hk, ?_, fun _ _ hk => hk, ?_⟩
+    · intro k hk
+      have hk' : (t.creating.update r.creating).has k = true := hk
+      show t.index.get k ≠ none
+      rcases (hupd k).1 hk' with h1 | h1
+      · exact hR.idxKeep k (w0.crIdx k h1).1
+      · obtain ⟨p, hp, _⟩ := hcrNew k h1
+        rw [hp]; simp
+    · intro k q rr hq he
+      have := (hinv.tmp _ rfl).recSerial k q rr hq he
+      have hcm : (merged r t).committed = e.committed := cx2
+      rw [hcm] at this
+      exact this
 
 end Proofs.Conn
